@@ -199,6 +199,55 @@ pub fn run(ctx: &Ctx, rep: &mut Report) {
         rep.case(&src, true);
         pipeline(rep, &src);
     }
+    // ---- error paths with long, non-ASCII values ---------------------------------------------------
+    // every construct that reports an error mentioning (part of) a value, with texts whose
+    // characters are 1 to 4 bytes long at every alignment: a message that cuts or pads by
+    // bytes lands inside a character for some of them
+    {
+        let mut values: Vec<String> = vec![];
+        for ch in ['é', '日', '😀', 'a'] {
+            for pre in 0..4usize {
+                for k in [1usize, 7, 15, 19, 20, 21, 29, 30, 31, 32, 33, 40, 58, 59, 60, 61, 62, 63, 64, 65, 100, 127, 128, 129, 255, 256, 257] {
+                    if ch == 'a' && pre > 0 { continue; }
+                    values.push(format!("\"{}{}\"", "x".repeat(pre), ch.to_string().repeat(k)));
+                }
+            }
+        }
+        let extra: Vec<String> = vec![
+            format!("[{}]", (0..40).map(|i| format!("\"é{}\"", i)).collect::<Vec<_>>().join(", ")),
+            format!("{{{}}}", (0..30).map(|i| format!("\"ké{}\": \"日{}\"", i, i)).collect::<Vec<_>>().join(", ")),
+            "123456789012345678901234567890123456789012345678901234567890123456789".to_string(),
+            format!("(x => \"{}\")", "é".repeat(80)),
+        ];
+        let templates: &[&str] = &[
+            "V(1)", "[1, 2] via V", "[1, 2] where V", "3 into V", "V via (x => x)", "V + 1", "1 + V", "V - V", "-V", "V!", "V.k", "V[\"k\"]", "V[0][0]",
+            "sum(V)", "map(V, x => x)", "map([1], V)", "filter([1], V)", "reduce([1, 2], V, 0)", "sort_by([2, 1], V)", "convert(1, V, \"m\")", "convert(1, \"m\", V)",
+            "to_number(V)", "format(V, 1)", "format(\"{}\", V, V, V)", "range(V)", "V < 1", "1 < V", "if V then 1 else 2", "not V", "V and true", "true or V", "[...V]", "{...V}",
+            "keys(V)", "{[V]: 1}.zz", "{a: 1}[V]", "zz = V\nzz = V", "zz = V\nzz(1)", "zz = V\nzz.a.b", "abs(V)", "round(1, V)", "slice(V, 2, 1)", "slice(V, -5, 900)", "head(V) + 1",
+            "join([1, 2], V)(1)", "split(V, \"\")(1)", "replace(V, \"é\", \"日\")(1)", "uppercase(V)(1)", "typeof(V)(1)", "to_string(V)(1)", "chunk([1], V)", "percentile([1], V)",
+            "group_by([1, 2], x => V)", "count_by([1], x => V)", "zip(V, V)", "concat(V, 1)", "includes(V, V)(1)", "unique(V)", "entries(V)", "do {\n  q = V\n  return q(2)\n}",
+            "(f => f(1))(V)", "((a, b) => a)(V)", "V ?? 1 + true", "#V_long", "output V",
+        ];
+        let stride = if ctx.thorough() { 1 } else { 5 };
+        let mut k = 0usize;
+        for t in templates.iter() {
+            for v in values.iter().chain(extra.iter()) {
+                k += 1;
+                if k % stride != 0 && !v.contains(&"é".repeat(58)) && !v.contains(&"é".repeat(30)) { continue; }
+                let src = if t.contains("#V_long") { format!("#{}", "abcdefghij".repeat(8)) } else { t.replace('V', v) };
+                rep.case(&src, true);
+                pipeline(rep, &src);
+            }
+        }
+        // unknown identifiers / fields of every length
+        for n in [1usize, 59, 60, 61, 200] {
+            for src in [format!("{}", "i".repeat(n)), format!("{{a: 1}}.{}", "f".repeat(n)), format!("{}(1)", "g".repeat(n)), format!("{} = 1\n{} = 2", "v".repeat(n), "v".repeat(n))] {
+                rep.case(&src, true);
+                pipeline(rep, &src);
+            }
+        }
+    }
+
     // nesting up to 64
     for depth in [8usize, 16, 32, 64] {
         for (open, close) in [("(", ")"), ("[", "]"), ("-", ""), ("!", ""), ("{a: ", "}"), ("x => ", ""), ("if true then ", " else 0"), ("f(", ")")] {
